@@ -224,6 +224,16 @@ def is_time_rhs(rhs):
     return isinstance(rhs, tuple) and len(rhs) == 3 and rhs[0] == "T"
 
 
+_COMPILED = {}
+
+
+def _compiled(pattern, flags):
+    key = (pattern, flags)
+    if key not in _COMPILED:
+        _COMPILED[key] = re.compile(pattern, flags)
+    return _COMPILED[key]
+
+
 def rhs_real(rhs):
     if is_time_rhs(rhs):
         return from_us(rhs[1], rhs[2])
@@ -267,6 +277,10 @@ def to_real(ast):
             q = q.map(MAPS[part[1]]) if isinstance(part, tuple) else _key(q, part)
         return q.noop()
     if kind == "exists":
+        if isinstance(ast[2], tuple):  # a path of several keys: tag / field values are never mappings, so never true
+            for part in ast[2]:
+                q = _key(q, part)
+            return q.exists()
         return _key(q, ast[2]).exists()
     for part in ast[2]:
         if isinstance(part, tuple):
@@ -290,9 +304,12 @@ def to_real(ast):
         raise ValueError(op)
     if kind == "regex":
         fn = q.matches if ast[3] == "matches" else q.search
+        pat = ast[4]
+        if isinstance(pat, tuple) and pat[0] == "RE":
+            pat = _compiled(pat[1], pat[2])  # a compiled pattern object (its own flags travel inside it)
         if ast[5]:
-            return fn(ast[4], flags=ast[5])
-        return fn(ast[4])
+            return fn(pat, flags=ast[5])
+        return fn(pat)
     if kind == "test":
         return q.test(TESTS[ast[3]], *[rhs_real(x) for x in ast[4]])
     raise ValueError(kind)
@@ -362,6 +379,12 @@ def holds(ast, mp):
         return True
     if kind == "exists":
         d = mp.tags if ast[1] == "tags" else mp.fields
+        if isinstance(ast[2], tuple):
+            for part in ast[2]:
+                if not isinstance(d, dict) or part not in d:
+                    return False
+                d = d[part]
+            return True
         return ast[2] in d
     try:
         value = _resolve(ast[1], ast[2], mp)
@@ -379,9 +402,13 @@ def holds(ast, mp):
     if kind == "regex":
         if not isinstance(value, str):
             return False
+        pat = ast[4]
+        if isinstance(pat, tuple) and pat[0] == "RE":
+            pat = _compiled(pat[1], pat[2])
+            return (pat.match(value) if ast[3] == "matches" else pat.search(value)) is not None
         if ast[3] == "matches":
-            return re.match(ast[4], value, ast[5]) is not None
-        return re.search(ast[4], value, ast[5]) is not None
+            return re.match(pat, value, ast[5]) is not None
+        return re.search(pat, value, ast[5]) is not None
     if kind == "test":
         return bool(TESTS[ast[3]](value, *[rhs_real(x) for x in ast[4]]))
     raise ValueError(kind)
@@ -436,7 +463,8 @@ def show(ast):
     if k == "noop":
         return f"{names[ast[1]]}{''.join('[' + repr(p) + ']' for p in (ast[2] if len(ast) > 2 else ()))}.noop()"
     if k == "exists":
-        return f"{names[ast[1]]}[{ast[2]!r}].exists()"
+        keys = ast[2] if isinstance(ast[2], tuple) else (ast[2],)
+        return f"{names[ast[1]]}{''.join('[' + repr(x) + ']' for x in keys)}.exists()"
     p = names[ast[1]]
     for part in ast[2]:
         p += f".map({part[1]})" if isinstance(part, tuple) else f"[{part!r}]"
